@@ -192,7 +192,7 @@ func oracle(c *gridx.Case, r *vf.Rec) {
 	}
 }
 
-var x4s = []float64{0.5, 0.6, 0.75, 0.9, 1, 1.1, 1.5, 1.9, 2, 2.2, 2.5, 3, 3.3, 3.9, 4}
+var x4s = []float64{0.5, 0.6, 0.75, 0.9, 1, 1.1, 1.5, 1.9, 2, 2.2, 2.5, 3, 3.3, 3.9, 4, 0.55, 0.8, 1.2, 1.3, 1.6, 1.75, 2.1, 2.4, 2.6, 2.9, 3.1, 3.6, 3.75} // 28 values: more than a small cache holds, several per half-day bucket
 
 func spaces(tier string) []*gridx.Space {
 	T := 4
@@ -216,6 +216,9 @@ func spaces(tier string) []*gridx.Space {
 		}
 		out = append(out, &gridx.Space{Name: fmt.Sprintf("GR4J/x4=%g", x4), Model: "GR4J", Params: ps, PNames: pn, Letters: letters, T: T, Inits: [][]float64{nil, mid}, Oracle: oracle, SecondPassEvery: 16})
 	}
+	// (no long single-call series here: with X2 = -10, X3 = 1 the routing store alternates between its clipped and unclipped
+	// branch and amplifies a 1-ulp difference between two correct implementations by ~6 % per step, 4e-7 relative after 350
+	// steps; long series of GR4J are compared against the library itself in C06 (split runs) and C14 (truncations))
 	return out
 }
 
